@@ -71,7 +71,18 @@ class Sym:
                 fe = self.operand(f, depth)
                 return ("call", ("indirect", fe), tuple(self.operand(a, depth) for a in node["args"]))
             name = ci.get("resolved") or ci["fn"]
-            e = ("call", name, tuple(self.operand(a, depth) for a in node["args"]), _targs(ci))
+            args = tuple(self.operand(a, depth) for a in node["args"])
+            summ = accessor_summary(self.b.crate, name)
+            if summ is not None and len(args) == summ[0]:
+                return subst_params(summ[1], args)
+            # `x == Enum::Unit` through a derived PartialEq is a test of the variant
+            if name.endswith(" as core::cmp::PartialEq>::eq") and len(args) == 2 and _derived_eq(self.b.crate, name):
+                ty = name[1:].split(" as ")[0]
+                for x, y in ((args[0], args[1]), (args[1], args[0])):
+                    y = strip_transparent(y)
+                    if y[0] == "const" and y[1].startswith(ty + "::"):
+                        return ("call", "is_variant", (x, ("const", y[1][len(ty) + 2:])), ())
+            e = ("call", name, args, _targs(ci))
             # a call through a `&mut` argument is not a pure function of its rendered operands:
             # tag it with its site so that two such calls are different values
             for a in node["args"]:
@@ -158,6 +169,109 @@ class Sym:
     # ------------------------------------------------------------------ rendering
     def show(self, e):
         return show(e, self)
+
+
+# ---------------------------------------------------------------------- accessor inlining
+INLINE_MAX_NODES = 14
+_in_progress = set()
+INLINED = {}   # callee -> rendered summary (reported in evidence / by tools)
+
+
+def _nodes(e):
+    if not isinstance(e, tuple):
+        return 0
+    return 1 + sum(_nodes(x) for x in e if isinstance(x, tuple))
+
+
+def _closed(e):
+    if not isinstance(e, tuple) or not e:
+        return True
+    if e[0] in ("local", "other", "site", "closure"):
+        return False
+    if e[0] == "call" and isinstance(e[1], tuple):
+        return False
+    return all(_closed(x) for x in e if isinstance(x, tuple))
+
+
+def subst_params(e, args):
+    if not isinstance(e, tuple) or not e:
+        return e
+    if e[0] == "param" and len(e) == 3 and isinstance(e[1], int):
+        return args[e[1] - 1]
+    return tuple(subst_params(x, args) if isinstance(x, tuple) else x for x in e)
+
+
+def accessor_summary(crate, name):
+    """(arg_count, expr over params) when `name` is a hand-written straight-line function of this
+    crate that only reads its arguments (a getter / predicate such as `Error::has_span`); the call
+    is then replaced by its value so that a guard reads the same whether or not it goes through
+    the helper.  None otherwise."""
+    from .mir import Body
+    cache = crate.setdefault("_summaries", {})
+    if name in cache:
+        return cache[name]
+    idx = crate.get("_raw_by_key")
+    if idx is None:
+        idx = {}
+        for raw in crate["bodies"]:
+            idx.setdefault(raw["key"], []).append(raw)
+        crate["_raw_by_key"] = idx
+    res = None
+    raws = idx.get(name) if name not in TRANSPARENT_CALLS else None
+    key = (id(crate), name)
+    if raws and len(raws) == 1 and key not in _in_progress:
+        raw = raws[0]
+        _in_progress.add(key)
+        try:
+            res = _summarise(Body(raw, crate))
+        finally:
+            _in_progress.discard(key)
+    cache[name] = res
+    if res is not None:
+        INLINED[name] = show(res[1])
+    return res
+
+
+def _derived_eq(crate, name):
+    accessor_summary(crate, name)   # builds the index
+    raws = crate["_raw_by_key"].get(name)
+    if not raws:
+        return False
+    from .mir import Body
+    return Body(raws[0], crate).derived
+
+
+def _summarise(cb):
+    if cb.kind not in ("Fn", "AssocFn") or cb.derived or cb.arg_count == 0:
+        return None
+    for l in range(1, cb.arg_count + 1):
+        if cb.local_ty(l).startswith("&mut "):
+            return None
+    for b in cb.normal_blocks():
+        k = cb.term(b)["k"]
+        if k not in ("goto", "call", "drop", "return"):
+            return None
+    s = Sym(cb)
+    ds = [d for d in cb.defs().get(0, []) if not cb.is_cleanup(d[0])]
+    if len(ds) != 1 or ds[0][2] not in ("assign", "call"):
+        return None
+    e = strip_transparent(s._def_expr(ds[0], 0))
+    if not _closed(e) or _nodes(e) > INLINE_MAX_NODES or e[0] in ("param", "const", "agg", "fnptr"):
+        return None
+    # only predicates and plain getters: constructors and forwarders keep their identity
+    if cb.local_ty(0) != "bool" and e[0] != "field":
+        return None
+    # every call made by the body must be part of the returned value (no side work)
+    ncalls = sum(1 for b in cb.normal_blocks() if cb.term(b)["k"] == "call")
+    if ncalls != _count_calls(s._def_expr(ds[0], 0)):
+        return None
+    return (cb.arg_count, e)
+
+
+def _count_calls(e):
+    if not isinstance(e, tuple) or not e:
+        return 0
+    return (1 if e[0] == "call" else 0) + sum(_count_calls(x) for x in e if isinstance(x, tuple))
 
 
 SHORT = {
@@ -300,6 +414,9 @@ def normalise_atom(expr, value):
                 expr = ("call", "core::result::Result::<T, E>::is_ok", expr[2], expr[3] if len(expr) > 3 else ())
                 value = not value
                 continue
+            if c == "is_variant" and isinstance(value, bool):
+                v = expr[2][1][1]
+                return ("discr", strip_transparent(expr[2][0])), (v if value else ("not-in", (v,)))
             if c in ("<bool as core::cmp::PartialEq>::eq", "<bool as core::cmp::PartialEq>::ne") and isinstance(value, bool):
                 a, bb = expr[2][0], expr[2][1]
                 cb = _const_bool(bb[1]) if bb[0] == "const" else None
@@ -458,44 +575,155 @@ class PathCond:
                             q.append(tb)
 
         topo()
+        phi = self._phi()
         for x in order:
             if x == 0 or not any(p in need and (p, x) not in back for (p, lab) in preds.get(x, [])):
-                acc = {frozenset()} if x == 0 else set()
-                if x != 0:
-                    acc = {frozenset()}
+                acc = {frozenset()}
             else:
                 acc = set()
             for (p, lab) in preds.get(x, []):
                 if p not in need or (p, x) in back or p not in memo:
                     continue
-                a = self.edge_atom(p, lab)
-                if a is not None and a[0][0] == "const":
-                    # constant condition: only the matching edge is feasible
-                    cb = _const_bool(a[0][1])
-                    if cb is not None and isinstance(a[1], bool) and cb != a[1]:
-                        continue
-                    a = None
-                if a is not None and a[0][0] == "local":
-                    a = None  # drop flags and other unresolved multi-definition locals
-                if a is not None and relevant is not None and not relevant(a[0], a[1]):
-                    a = None
+                a0 = self.edge_atom(p, lab)
+                pdefs = phi["by_block"].get(p)
                 for cs in memo[p]:
+                    if pdefs:
+                        cs = self._apply_phi_defs(cs, pdefs)
+                    a = a0
+                    if a is not None and phi["locals"] and _mentions_local(a[0], phi["locals"]):
+                        env = {e[1]: v for (e, v) in cs if e[0] == "phi"}
+                        a = normalise_atom(subst_locals(a[0], env), a[1])
+                    if a is not None:
+                        f = fold_atom(a[0], a[1])
+                        if f is False:
+                            continue      # infeasible edge on this path
+                        if f is True:
+                            a = None
+                    if a is not None and a[0][0] in ("local", "const"):
+                        a = None  # drop flags and other unresolved multi-definition locals
+                    if a is not None and relevant is not None and not relevant(a[0], a[1]):
+                        a = None
                     if a is None:
                         acc.add(cs)
                     else:
                         # contradictory with an existing atom on the same expr => infeasible path
                         bad = False
+                        implied = False
+                        weaker = []
                         for (e2, v2) in cs:
-                            if e2 == a[0] and _contradict(v2, a[1]):
-                                bad = True
-                                break
-                        if not bad:
-                            acc.add(cs | {a})
+                            if e2 == a[0]:
+                                if _contradict(v2, a[1]):
+                                    bad = True
+                                    break
+                                if _implies(v2, a[1]):
+                                    implied = True
+                                elif _implies(a[1], v2):
+                                    weaker.append((e2, v2))
+                        if bad:
+                            continue
+                        if implied:
+                            acc.add(cs)
+                        else:
+                            acc.add((cs - frozenset(weaker)) | {a})
+            # forget phi values that no later switch reads
+            if phi["locals"]:
+                acc = {frozenset(at for at in cs if at[0][0] != "phi" or x in phi["live"].get(at[0][1], ())) for cs in acc}
             acc = _absorb(acc)
             if len(acc) > cap:
                 raise RuntimeError("path condition too large for bb%d in %s" % (x, self.b.key))
             memo[x] = acc
-        return memo.get(target, set())
+        res = memo.get(target, set())
+        if phi["locals"]:
+            res = _absorb({frozenset(at for at in cs if at[0][0] != "phi") for cs in res})
+        return res
+
+    # phi locals ----------------------------------------------------------------------------
+    def _phi(self):
+        """Locals assigned once on each of several mutually exclusive paths (the value of a
+        `match`/`if` expression bound to a variable).  A switch on such a local is expanded per
+        path into the condition on the value assigned on that path."""
+        if getattr(self, "_phi_cache", None) is not None:
+            return self._phi_cache
+        b = self.b
+        out = {"locals": set(), "by_block": {}, "live": {}}
+        self._phi_cache = out
+        reach_memo = {}
+
+        def fwd(x):
+            if x not in reach_memo:
+                reach_memo[x] = b.reachable(x, False)
+            return reach_memo[x]
+
+        cands = {}
+        for l, ds in b.defs().items():
+            if l == 0 or 1 <= l <= b.arg_count or l in self.sym.opaque:
+                continue
+            whole = [d for d in ds if d[2] in ("assign", "call") and not b.is_cleanup(d[0])]
+            other = [d for d in ds if d[2] not in ("assign", "call") and not b.is_cleanup(d[0])]
+            if len(whole) < 2 or other:
+                continue
+            if self.sym.local(l) != ("local", l):
+                continue
+            blocks = [d[0] for d in whole]
+            if len(set(blocks)) != len(blocks):
+                continue
+            # mutually exclusive definitions: no def can flow into another one
+            excl = True
+            for d in whole:
+                nxt = set()
+                for _, tb in b.succ_edges(d[0]):
+                    nxt |= fwd(tb)
+                if any(o[0] in nxt for o in whole):
+                    excl = False
+                    break
+            if excl:
+                cands[l] = whole
+        if not cands:
+            return out
+        out["locals"] = set(cands)
+        exprs = {}
+        for l, whole in cands.items():
+            for d in whole:
+                e = strip_transparent(self.sym._def_expr(d, 0))
+                exprs[(l, d[0])] = e
+                out["by_block"].setdefault(d[0], []).append((l, e))
+        # liveness: blocks from which a reader of the phi local is still ahead
+        preds = b.preds()
+        readers = {l: set() for l in cands}
+        for blk in b.normal_blocks():
+            t = b.term(blk)
+            if t["k"] == "switch":
+                e = self.sym.operand(t["discr"])
+                for l in cands:
+                    if _mentions_local(e, {l}):
+                        readers[l].add(blk)
+        for (l2, blk), e in exprs.items():
+            for l in cands:
+                if l != l2 and _mentions_local(e, {l}):
+                    readers[l].add(blk)
+        for l, rs in readers.items():
+            live = set()
+            st = list(rs)
+            while st:
+                x = st.pop()
+                if x in live:
+                    continue
+                live.add(x)
+                st.extend(p for p, _ in preds.get(x, []))
+            out["live"][l] = live
+        return out
+
+    def _apply_phi_defs(self, cs, pdefs):
+        env = {e[1]: v for (e, v) in cs if e[0] == "phi"}
+        cur = set(cs)
+        for l, e in pdefs:
+            if _mentions_local(e, set(env)):
+                e = subst_locals(e, env)
+            cur = {at for at in cur if not (at[0][0] == "phi" and at[0][1] == l)}
+            cur.add((("phi", l), e))
+            env[l] = e
+        return frozenset(cur)
+
 
     def dominating_atoms(self, target):
         """Atoms of the switch edges that dominate `target` (conjunction; sound, possibly weaker)."""
@@ -510,6 +738,47 @@ class PathCond:
         return out
 
 
+def _mentions_local(e, locs):
+    if not isinstance(e, tuple) or not e:
+        return False
+    if e[0] == "local" and len(e) == 2:
+        return e[1] in locs
+    return any(_mentions_local(x, locs) for x in e if isinstance(x, tuple))
+
+
+def subst_locals(e, env):
+    if not isinstance(e, tuple) or not e:
+        return e
+    if e[0] == "local" and len(e) == 2 and e[1] in env:
+        return env[e[1]]
+    return tuple(subst_locals(x, env) if isinstance(x, tuple) else x for x in e)
+
+
+def fold_atom(expr, value):
+    """True: the atom holds trivially; False: it cannot hold; None: not decided."""
+    k = expr[0]
+    if k == "const":
+        cb = _const_bool(expr[1])
+        if cb is not None and isinstance(value, bool):
+            return cb == value
+        return None
+    if k == "call" and not isinstance(expr[1], tuple) and isinstance(value, bool) and expr[2]:
+        inner = expr[2][0]
+        if inner[0] == "agg" and "::" in inner[1]:
+            vname = inner[1].rsplit("::", 1)[-1]
+            if expr[1] == "core::option::Option::<T>::is_some" and vname in OPTION_LIKE:
+                return OPTION_LIKE[vname] == value
+            if expr[1] == "core::result::Result::<T, E>::is_ok" and vname in RESULT_LIKE:
+                return RESULT_LIKE[vname] == value
+    if k == "discr" and expr[1][0] == "agg" and "::" in expr[1][1]:
+        vname = expr[1][1].rsplit("::", 1)[-1]
+        if isinstance(value, str):
+            return vname == value
+        if isinstance(value, tuple) and value and value[0] == "not-in":
+            return vname not in value[1]
+    return None
+
+
 def _contradict(v1, v2):
     if v1 == v2:
         return False
@@ -522,6 +791,19 @@ def _contradict(v1, v2):
     if n2:
         return v1 in v2[1]
     return True
+
+
+def _implies(v1, v2):
+    """value constraint v1 on an expression implies constraint v2 on the same expression"""
+    if v1 == v2:
+        return True
+    n1 = isinstance(v1, tuple) and v1 and v1[0] == "not-in"
+    n2 = isinstance(v2, tuple) and v2 and v2[0] == "not-in"
+    if n2 and not n1:
+        return v1 not in v2[1]
+    if n1 and n2:
+        return set(v2[1]) <= set(v1[1])
+    return False
 
 
 def _absorb(sets):
